@@ -5,7 +5,7 @@ import subprocess
 
 import vx
 
-CRATE = os.path.join(vx.VERIF, "replay")
+CRATE = os.environ.get("VERIF_REPLAY_CRATE") or os.path.join(vx.VERIF, "replay")  # a copy with its own path dependency for parallel seed workers
 BIN = os.path.join(CRATE, "target", "debug", "verif-replay")
 
 # property -> enumerator commands (bounded; the bound is part of the command line)
@@ -20,6 +20,7 @@ SEARCH = {
     "C08": [["c08", "4"]],
     "C10": [["c10", "3"]],
     "C09": [["c09", "3"]],
+    "C19": [["c19", "2"]],
 }
 THOROUGH = {
     "C01": [["diff", "C01", "3", "4"]],
@@ -32,6 +33,7 @@ THOROUGH = {
     "C08": [["c08", "6"]],
     "C10": [["c10", "4"]],
     "C09": [["c09", "5"]],
+    "C19": [["c19", "4"]],
 }
 
 
